@@ -18,10 +18,22 @@ Clause(j) ==
       [] j = "queue"     -> \A i \in 1..Len(R.subs) : R.subs[i][2] = R.queue
       [] j = "reset"     -> \A k \in 1..Len(R.resets) : ResetAnnounces(R, R.resets[k].resources, R.resets[k].access)
       [] j = "serves"    -> R.served = (OwnedRes(R) # <<>> \/ OwnedAcc(R) # <<>>)
+      \* on a real NATS server: a probe request of type t for resource name n sent by another client is
+      \* answered exactly once if an owned pattern (of that type's list) covers n (a name outside the owned
+      \* space may still reach the service, e.g. call.s.m under the subscription for s.>: at most once)
+      [] j = "delivered" -> \A k \in 1..Len(R.probes) :
+                               LET t == R.probes[k][1]  n == R.probes[k][2]
+                                   owned == IF t = <<"a","c","c","e","s","s">> THEN OwnedAcc(R) ELSE OwnedRes(R)
+                                   covered == \E p \in SeqSet(owned) : NMatches(p, n)
+                               IN IF covered THEN R.probes[k][3] = 1 ELSE R.probes[k][3] <= 1
+      \* the reset of start-up and the reset after the reconnect
+      [] j = "reconnect" -> R.served => Len(R.resets) >= 2
       [] OTHER -> FALSE
 Judged == {"coverage", "redundant", "valid", "exact", "queue", "reset", "serves"}
+RealJudged == {"delivered", "reset", "reconnect", "serves"}
 ConfigOK ==
     WellFormedCfg(R) =>
-        IF R.judge = "all" THEN \A j \in (IF R.served THEN Judged ELSE {"serves"}) : Clause(j)
+        IF R.judge = "real" THEN \A j \in (IF R.served THEN RealJudged ELSE {"serves"}) : Clause(j)
+        ELSE IF R.judge = "all" THEN \A j \in (IF R.served THEN Judged ELSE {"serves"}) : Clause(j)
         ELSE (R.served \/ R.judge = "serves") => Clause(R.judge)
 =============================================================================
